@@ -7,7 +7,7 @@ from harness.core import hx, unhx
 from harness import pktutil as pu
 
 ID = "C19"
-REQUIRED_THEOREMS = ["rows_small", "rows_large", "rows_large_count", "rows_are_sublist", "index_valid", "index_out_of_range"]
+REQUIRED_THEOREMS = ["rows_small", "rows_large", "rows_large_count", "rows_large_shown", "rows_are_sublist", "index_valid", "index_out_of_range"]
 RULE = ("requests `rows <n>` and `index <n> <i>`: packet files (plain names, names with brackets, spaces, in directories whose names form a closing markup tag) of n = 0..25 packets (sequence count = 8186 + index, crossing 8191 -> 8192; other header fields varied) run through "
         "`spp describe-packets` and `spp parse --packet i` (i = -1..n+1) with click's CliRunner in-process; rows are "
         "recovered from rich's table output; the live MAX_ROWS / HEAD_ROWS constants are compared with the model's; "
